@@ -28,6 +28,11 @@ sys.path.insert(0, HERE)
 sys.dont_write_bytecode = True
 
 
+# attributes that lead from a syntax node to a DEFINITION (possibly in another module): not children
+SEMANTIC_LINKS = {'node', 'info', 'def_var', 'original_def', 'type', 'unanalyzed_type', 'type_annotation', 'upper_bound', 'values', 'defn', 'analyzed',
+                  'type_guard', 'type_is', 'var', 'final_value', 'typeddict_type', 'tuple_type', 'special_alias', 'declared_metaclass', 'metaclass_type'}
+
+
 def mypy_targets(repo_root: str) -> tuple[dict, dict]:
     """-> ({(rel, line, col): set(fullnames)}, stats)"""
     cwd = os.getcwd()
@@ -122,9 +127,9 @@ def mypy_targets(repo_root: str) -> tuple[dict, dict]:
             targets = {t for t in targets if t.startswith('aioslsk.')}
             if targets:
                 stats['resolved_in_repo'] += 1
-                out[(rel, node.line, node.column)] = targets
+                out[(rel, node.line, node.column, node.end_line, node.end_column)] = targets
         for attr in dir(type(node)):
-            if attr.startswith('_'):
+            if attr.startswith('_') or attr in SEMANTIC_LINKS:
                 continue
             try:
                 v = getattr(node, attr)
@@ -160,24 +165,43 @@ def sa_targets(repo_root: str) -> dict:
     for fn in eng.repo.all_funcs():
         for c in calls_in(fn.node):
             cs = eng.res.callees(c, fn)
-            key = (fn.module.rel, c.lineno, c.col_offset)
+            key = (fn.module.rel, c.lineno, c.col_offset, c.end_lineno, c.end_col_offset)
             names = set()
             for f in cs:
                 names.add(f'{f.module.dotted}.{f.qualname}'.replace('.<locals>', ''))
             out[key] = (names, ast.unparse(c.func)[:60], fn.qualname)
+    global SA_FUNCS, SA_ANCESTORS
+    SA_FUNCS = {f'{f.module.dotted}.{f.qualname}'.replace('.<locals>', '') for f in eng.repo.all_funcs()}
+    def cname(ci):
+        return f'{ci.module.dotted}.{getattr(ci, "qualname", None) or ci.name}'
+    for cs in eng.repo.classes.values():
+        for ci in cs:
+            SA_ANCESTORS[cname(ci)] = {cname(b) for b in eng.repo.mro(ci)}
     return out
 
 
-def main():
-    args = sys.argv[1:]
-    repo = args[args.index('--repo') + 1] if '--repo' in args else os.environ.get('AIOSLSK_REPO', '/repo')
-    verbose = '-v' in args
-    t0 = time.time()
-    sa = sa_targets(repo)
-    mt, stats = mypy_targets(repo)
-    anchors = set(json.load(open(os.path.join(HERE, 'tables', 'xcheck_anchors.json')))['functions']) if os.path.exists(os.path.join(HERE, 'tables', 'xcheck_anchors.json')) else set()
-    triage = json.load(open(os.path.join(HERE, 'tables', 'xcheck_triage.json'))) if os.path.exists(os.path.join(HERE, 'tables', 'xcheck_triage.json')) else {}
-    agree = disagree = sa_only = mypy_only = 0
+SA_FUNCS: set = set()
+SA_ANCESTORS: dict = {}
+
+
+def related(a: str, b: str) -> bool:
+    """same function name on classes of one hierarchy (sa answers with the implementations that can run, mypy with the declaration referenced),
+    or a nested function (the two sides qualify those differently)"""
+    ca, cb = a.rsplit('.', 1)[0], b.rsplit('.', 1)[0]
+    if a.rsplit('.', 1)[1] != b.rsplit('.', 1)[1]:
+        return False
+    if ca == cb or cb in SA_ANCESTORS.get(ca, ()) or ca in SA_ANCESTORS.get(cb, ()):
+        return True
+    if ca.startswith(cb + '.') or cb.startswith(ca + '.'):
+        return True         # nested function: Network.get_listening_ports.get_port vs Network.get_port
+    # structural (Protocol) declaration: mypy names the protocol class, sa the classes that implement it
+    return cb.endswith('.Serializable') or ca.endswith('.Serializable')
+
+
+def compare(sa: dict, mt: dict, verbose: bool = False):
+    agree = disagree = sa_only = mypy_only = synth = 0
+    sa_funcs = SA_FUNCS
+    disagree = sa_only = mypy_only = 0
     dis, monly, sonly = [], [], []
     # subclasses: an sa answer may contain overrides of mypy's target in subclasses
     for key, targets in sorted(mt.items()):
@@ -190,7 +214,7 @@ def main():
             simple_m = {t.split('.')[-1] for t in mnames}
             if names & mnames:
                 agree += 1
-            elif {n.split('.')[-1] for n in names} == simple_m and all(n.split('.')[-1] == next(iter(simple_m)) for n in names):
+            elif all(any(related(n, m) for m in mnames) for n in names):
                 # same method name on other classes: sa found implementations, mypy the declaration on a base / protocol class
                 agree += 1
                 if verbose:
@@ -199,14 +223,44 @@ def main():
                 disagree += 1
                 dis.append((key, txt, where, sorted(names), sorted(mnames)))
         else:
+            real = {t for t in mnames if not (t.endswith('.__init__') or t.endswith('.__init__?')) or t in sa_funcs}
+            if not real:
+                synth += 1          # constructor of a class without a written __init__ (dataclass / Exception / Enum): no code of the package runs
+                continue
             mypy_only += 1
-            monly.append((key, txt, where, sorted(mnames)))
+            monly.append((key, txt, where, sorted(real)))
     for key, (names, txt, where) in sorted(sa.items()):
         if names and key not in mt:
             sa_only += 1
             sonly.append((key, txt, where, sorted(names)))
+    return agree, dis, monly, sonly, synth
+
+
+def main():
+    args = sys.argv[1:]
+    repo = args[args.index('--repo') + 1] if '--repo' in args else os.environ.get('AIOSLSK_REPO', '/repo')
+    verbose = '-v' in args
+    t0 = time.time()
+    sa = sa_targets(repo)
+    mt, stats = mypy_targets(repo)
+    # the comparator must notice a wrong answer: corrupt sa's answer at the first site both sides resolve and compare once more
+    k0 = next((k for k in sorted(mt) if k in sa and sa[k][0] & {t.replace('.<locals>', '') for t in mt[k]}), None)
+    if k0 is None:
+        print('ANALYSIS-ERROR: resolver cross-check: no call site resolved by both sides')
+        sys.stdout.flush()
+        os._exit(2)
+    bad = dict(sa)
+    bad[k0] = ({'aioslsk.bogus.function'}, sa[k0][1], sa[k0][2])
+    if len(compare(bad, mt)[1]) != len(compare(sa, mt)[1]) + 1:
+        print('ANALYSIS-ERROR: resolver cross-check: the comparator did not notice a corrupted answer')
+        sys.stdout.flush()
+        os._exit(2)
+    anchors = set(json.load(open(os.path.join(HERE, 'tables', 'xcheck_anchors.json')))['functions']) if os.path.exists(os.path.join(HERE, 'tables', 'xcheck_anchors.json')) else set()
+    triage = json.load(open(os.path.join(HERE, 'tables', 'xcheck_triage.json'))) if os.path.exists(os.path.join(HERE, 'tables', 'xcheck_triage.json')) else {}
+    agree, dis, monly, sonly, synth = compare(sa, mt, verbose)
+    disagree, mypy_only, sa_only = len(dis), len(monly), len(sonly)
     print(f'call sites: sa {len(sa)}, mypy {stats["calls"]} ({stats["resolved_in_repo"]} resolved to the package); agree {agree}, DISAGREE {disagree}, '
-          f'mypy-only {mypy_only}, sa-only {sa_only}; mypy errors {stats["mypy_errors"]}; {time.time() - t0:.1f}s')
+          f'mypy-only {mypy_only}, sa-only {sa_only}, synthesised constructors {synth}; mypy errors {stats["mypy_errors"]}; {time.time() - t0:.1f}s')
     rc = 0
     for key, txt, where, a, b in dis:
         k = f'{key[0]}:{where}:{txt}'
